@@ -372,6 +372,18 @@ func (e *Env) evalIdent(n *Node) specVal {
 		return specVal{t: "0", typ: types.Typ[types.UntypedNil], isNil: true}
 	case "result":
 		if len(e.results) != 1 {
+			if e.fr != nil && fnHasLocal(e.fr.fn, "result") {
+				// a local variable of the function is called result (return values are result0, result1, …)
+				at := e.retBlock
+				if e.li != nil {
+					at = e.li.header
+				}
+				if at != nil && !e.inOld {
+					if sv, ok := e.sourceVar(name, at); ok {
+						return sv
+					}
+				}
+			}
 			e.fail("'result' used with %d results", len(e.results))
 		}
 		return specVal{t: e.results[0].T, typ: e.resT[0], st: e.st}
@@ -962,6 +974,12 @@ func (e *Env) evalCall(n *Node) specVal {
 				l = fmt.Sprintf("(tl.cons (mk-tok %s %s) %s)", k.t, v.encVal(x.t, x.typ), l)
 			}
 			return specVal{t: app(hash32, app(sum256, app(sumBlob, l)), "0"), typ: v.eng.lookupType(pkgBitcoin, "Hash32")}
+		case "ncalls":
+			// ncalls(f): how many calls to f this function has made so far (f listed in `opt track`)
+			if args[0].Kind != NIdent {
+				e.fail("ncalls() takes a function name")
+			}
+			return specVal{t: v.heap(e.st, v.ghostKey("ncalls!"+args[0].Name, "Int")), typ: tInt}
 		case "nseed":
 			return specVal{t: v.heap(e.st, v.ghostKey("nseed", "Int")), typ: tInt}
 		case "clock":
@@ -1106,6 +1124,7 @@ var specUFs = map[string]specUF{
 	"PublicKeyOf":   {"uf!PublicKeyOf", extType(pkgBitcoin, "PublicKey")},
 	"SeedAt":        {"uf!SeedAt", extType(pkgBitcoin, "Hash32")},
 	"BlockValid":    {"uf!BlockMerkleValid", basicType(types.Bool)},
+	"TxWithID":      {"uf!TxWithID", func(e *Engine) types.Type { return types.NewPointer(e.lookupType(pkgWire, "MsgTx")) }},
 	"KeyEq":         {"uf!PublicKeyEqual", basicType(types.Bool)},
 	"SigVerify":     {"uf!SigVerify", basicType(types.Bool)},
 	"AcceptSigHash": {"uf!AcceptSigHash", extType(pkgBitcoin, "Hash32")},
